@@ -113,7 +113,7 @@ fn case(item: u64, rng: &mut Rng, acc: &mut Acc) {
 }
 
 pub fn run(ctx: &Ctx) -> i32 {
-    let n_items = ctx.n(600, 60_000);
+    let n_items = ctx.n(3000, 60_000);
     let acc = par_items(ctx, "C13", n_items, |item, rng, acc| case(item, rng, acc));
     let fin = Finish::new(
         "all 30 (D,L) pairs D=1..6, L=1..5 in rotation (accepted random graphs with exactly L loops); a in {10^-U(0,307), 2.2e-308, 5e-324, 1-10^-U(0,15.9), 1-2^-53, uniform}, b on multiples of 1/8 and 1/16 +-2 ulp and uniform; \
